@@ -300,7 +300,7 @@ pub struct H
 impl H
 {
     /// A table that can only resolve slots (used before the real one exists).
-    fn for_resolve(prog: Arc<Program>, slots: Vec<Entity>) -> H
+    pub(crate) fn for_resolve(prog: Arc<Program>, slots: Vec<Entity>) -> H
     {
         H { prog, slots, insts: Vec::new(), tokens: Vec::new(), created: Vec::new(), runs: Vec::new(), total_runs: 0, sigs: Vec::new(), sig_ent: Vec::new(), known: Vec::new(),
             wr_keys: [HashSet::new(), HashSet::new()], ewr_members: [HashMap::new(), HashMap::new()], base_entities: 0, callee_seq: 0, callee_calls: [0; 3], sys: Vec::new(), sys_sigs: Vec::new(), bulk_dropped: Vec::new(), bulk_kept: Vec::new() }
@@ -395,6 +395,38 @@ pub fn ps_actor(inst: u8) -> impl FnMut(ParamSet<(Readers, PlainParams)>, Local<
     }
 }
 
+/// A system that reaches the world through `DeferredWorld` only: all its commands go on the world's own command queue.
+pub fn dw_actor(inst: u8) -> impl FnMut(ParamSet<(Readers, bevy::ecs::world::DeferredWorld)>, Local<u32>) + Send + Sync + 'static
+{
+    let mut cap = 0u32;
+    let canary = Canary(inst);
+    move |mut ps: ParamSet<(Readers, bevy::ecs::world::DeferredWorld)>, mut n: Local<u32>|
+    {
+        let _ = &canary;
+        *n += 1;
+        cap += 1;
+        let ((s, held), chg) = { let mut r = ps.p0(); (r.sample(), r.changed()) };
+        log(Ev::Body { inst, n: *n, cap, s, chg });
+        drop(held);
+        let mut dw = ps.p1();
+        let prog = dw.resource::<H>().prog.clone();
+        // (the table is taken out for the duration of the body: a `DeferredWorld` hands out one borrow at a time)
+        let mut h = std::mem::replace(&mut *dw.resource_mut::<H>(), H::for_resolve(prog.clone(), Vec::new()));
+        let run = h.next_run(inst);
+        let ops = prog.insts[inst as usize].script(run);
+        for (idx, op) in ops.iter().enumerate()
+        {
+            let u = uid(inst, run, idx);
+            let mut c = dw.commands();
+            c.queue(move |_: &mut World| log(Ev::Apply(u)));
+            let _ = interp_basic(op, u, &mut c, &mut h);
+            c.queue(move |_: &mut World| log(Ev::ApplyEnd(u)));
+        }
+        *dw.resource_mut::<H>() = h;
+        log(Ev::BodyEnd { inst, n: run, err: false });
+    }
+}
+
 pub fn ewr_actor<T: EntityWorldReactor<Local = u32>>(inst: u8)
     -> impl FnMut(EntityLocal<T>, Readers, PlainParams, Local<u32>, &Entities) + Send + Sync + 'static
 {
@@ -457,7 +489,9 @@ pub fn excl_actor<Ret: MkRet>(inst: u8) -> impl FnMut(&mut World, &mut SystemSta
                     // event directly does that itself, first thing (runner entry / `World::spawn`), and C12 relies on it; for the
                     // other operations the point at which Bevy flushes relative to their own work is Bevy's business, so the body
                     // flushes explicitly, as careful user code would.
-                    if !matches!(w, WOp::Run(_) | WOp::SysEvent(..)) { world.flush(); }
+                    // (`excl_noflush` programs leave that to the call for the trigger calls, all of which go through the framework)
+                    let lazy = prog.excl_noflush && matches!(w, WOp::Broadcast(_) | WOp::EntityEvent(..) | WOp::TriggerMutation(..) | WOp::TriggerRes(_));
+                    if !matches!(w, WOp::Run(_) | WOp::SysEvent(..)) && !lazy { world.flush(); }
                     exec_wop(world, w, u);
                     log(Ev::NowEnd(u));
                 }
@@ -488,6 +522,7 @@ fn spawn_actor_cmd(c: &mut Commands, inst: Inst, flavour: Flavour) -> SystemComm
         Flavour::Exclusive => c.spawn_system_command(excl_actor::<()>(inst)),
         Flavour::ExclusiveWarn => c.spawn_system_command(excl_actor::<WarnErr>(inst)),
         Flavour::InParamSet => c.spawn_system_command(ps_actor(inst)),
+        Flavour::DeferredW => c.spawn_system_command(dw_actor(inst)),
         Flavour::CustomCb =>
         {
             let mut cb = CallbackSystem::<(), ()>::new(plain_actor::<()>(inst));
@@ -511,7 +546,7 @@ fn probe_system(In(uid): In<u32>, mut r: Readers)
 // Interpreter: ops that only need `Commands` and the harness tables
 
 /// Returns `Some(true)` if the body must stop with an error, `None` if the op needs system params.
-fn interp_basic(op: &Op, u: u32, c: &mut Commands, h: &mut H) -> Option<bool>
+pub(crate) fn interp_basic(op: &Op, u: u32, c: &mut Commands, h: &mut H) -> Option<bool>
 {
     match op
     {
@@ -595,15 +630,18 @@ fn interp_basic(op: &Op, u: u32, c: &mut Commands, h: &mut H) -> Option<bool>
                     (Mode::Persistent, Flavour::FallibleDrop) => { let sc = c.react().on_persistent(b, plain_actor::<DropErr>(i)); publish(c, sc); }
                     (Mode::Persistent, Flavour::Exclusive) => { let sc = c.react().on_persistent(b, excl_actor::<()>(i)); publish(c, sc); }
                     (Mode::Persistent, Flavour::InParamSet) => { let sc = c.react().on_persistent(b, ps_actor(i)); publish(c, sc); }
+                    (Mode::Persistent, Flavour::DeferredW) => { let sc = c.react().on_persistent(b, dw_actor(i)); publish(c, sc); }
                     (Mode::Persistent, _) => { let sc = c.react().on_persistent(b, plain_actor::<()>(i)); publish(c, sc); }
                     (Mode::Revokable, Flavour::FallibleDrop) => { let t = c.react().on_revokable(b, plain_actor::<DropErr>(i)); publish(c, SystemCommand::from(t.clone())); h.tokens[i as usize] = Some(t); }
                     (Mode::Revokable, Flavour::Exclusive) => { let t = c.react().on_revokable(b, excl_actor::<()>(i)); publish(c, SystemCommand::from(t.clone())); h.tokens[i as usize] = Some(t); }
                     (Mode::Revokable, Flavour::InParamSet) => { let t = c.react().on_revokable(b, ps_actor(i)); publish(c, SystemCommand::from(t.clone())); h.tokens[i as usize] = Some(t); }
+                    (Mode::Revokable, Flavour::DeferredW) => { let t = c.react().on_revokable(b, dw_actor(i)); publish(c, SystemCommand::from(t.clone())); h.tokens[i as usize] = Some(t); }
                     (Mode::Revokable, _) => { let t = c.react().on_revokable(b, plain_actor::<()>(i)); publish(c, SystemCommand::from(t.clone())); h.tokens[i as usize] = Some(t); }
                     // `on` returns nothing: the reactor's entity stays unknown to the harness
                     (Mode::Cleanup, Flavour::FallibleDrop) => { c.react().on(b, plain_actor::<DropErr>(i)); }
                     (Mode::Cleanup, Flavour::Exclusive) => { c.react().on(b, excl_actor::<()>(i)); }
                     (Mode::Cleanup, Flavour::InParamSet) => { c.react().on(b, ps_actor(i)); }
+                    (Mode::Cleanup, Flavour::DeferredW) => { c.react().on(b, dw_actor(i)); }
                     (Mode::Cleanup, _) => { c.react().on(b, plain_actor::<()>(i)); }
                 }
             }
@@ -1430,6 +1468,7 @@ fn run_inner(prog: &Arc<Program>)
     }
     h.base_entities = before; // world-reactor systems and anything the plugin spawned
     world.insert_resource(h);
+    crate::sysfam::set_callee_dw(prog.callee_dw);
     #[cfg(ukoehb_bevy_cobweb_verif)]
     bevy_cobweb::verif::set_runner_hook(Some(runner_hook));
 
